@@ -91,7 +91,11 @@ def requirements(a):
     return []
 
 
-def check_log(events, precached_tokens=()):
+def check_log(events, precached_tokens=(), mult=None):
+    """mult: token -> number of jobs of the workflow with that token (two nodes that compute the
+    identical job are indistinguishable in the log: without rerun they share one cache entry, with
+    rerun=True each of them executes)"""
+    mult = mult or {}
     recs = []
     done_ok = set(precached_tokens)
     started = {}
@@ -99,7 +103,7 @@ def check_log(events, precached_tokens=()):
         if ev[0] == "S":
             tok = ev[1]
             started[tok] = started.get(tok, 0) + 1
-            if started[tok] == 2:
+            if started[tok] == mult.get(tok, 1) + 1:
                 recs.append(dict(signature="job-body-entered-twice", observed=tok, expected="once"))
             for alts in consumed(tok):
                 if not any(alt <= done_ok for alt in alts):
@@ -123,7 +127,13 @@ def check_case(case):
         if obs.timed_out:  # inconclusive (C18 owns termination)
             case["_obs"] = dict(timed_out=True)
             return []
-        recs, started = check_log(obs.events, pre_tokens)
+        try:
+            mult = {}
+            for j in RW.jobs_of(prog):
+                mult[j["token"]] = mult.get(j["token"], 0) + 1
+        except RW.Undefined:
+            mult = {}
+        recs, started = check_log(obs.events, pre_tokens, mult)
         for t in pre_tokens:
             if started.get(t):
                 recs.append(dict(signature="cached-job-executed-again", observed=t, expected="cache hit"))
